@@ -253,7 +253,7 @@ def fixed_cases():
         out.append("OBS %s 2 1 0 2 0 2 | A 0 1 2 | A 1 1 2 | S 2 0 5 | C 0 | C 1 | X 0 | S 2 0 6 | C 0 | C 1 | A 0 1 2 | C 0" % md)
         # a negative total on a monotonic counter is dropped by the sum aggregation (outside the property's domain)
         out.append("OBS %s 1 1 1 0 | A 0 0 0 | S 0 0 -5 | C 0 | S 0 0 15 | C 0 | S 0 0 3 | C 0" % md)
-        # F26: a callback registered twice / two callbacks reporting the same attribute set
+        # F27 (fixed 93457c3) regression: a callback registered twice / two callbacks reporting the same attribute set
         out.append("OBS %s 1 1 1 0 | A 0 0 0 | A 0 0 0 | S 0 0 10 | C 0 | S 0 0 15 | C 0 | C 0" % md)
         out.append("OBS %s 2 0 1 1 1 | A 0 0 0 | A 0 1 2 | S 0 0 10 | S 2 0 10 | C 0 | C 1 | S 0 0 15 | S 2 0 15 | C 0 | C 1" % md)
         out.append("OBS %s 1 1 1 2 | A 0 0 0 | A 0 0 0 | A 0 1 2 | S 0 0 10 | S 2 0 11 | C 0 | R 0 0 0 | C 0" % md)
